@@ -194,6 +194,10 @@ def base_mpu(rng, deny_kind, deny_shape):
         mpu[DREG] = (1 | 7 << 1 | sd << 8, BOUND, ap << 8)
     else:
         mpu[DREG] = (1 | 10 << 1, BOUND, ap << 8)
+    # memory attributes (TEX, S, C, B) and XN never affect a data access permission: seeded on every data region
+    for i in list(range(1, 7)) + [9, DREG]:
+        if mpu[i][0] & 1:
+            mpu[i] = (mpu[i][0], mpu[i][1], mpu[i][2] | rng.getrandbits(6) | rng.getrandbits(1) << 12)
     if deny_kind == 'background':
         # no region covers [BOUND, +2K): remove the catch-alls there; code/stack/low stay mapped by dedicated regions
         mpu[0] = (1 | 16 << 1, 0, 3 << 8)                        # 128 KiB from 0: LOW + CODE
